@@ -28,7 +28,7 @@ ASSUMPTIONS = [
     "input values before cycle 0 are 0 (reset value of the delay registers)",
 ]
 BOUNDS = "sample_depth in {2,3,4} (thorough also 5, 8), samples_pretrigger 0..3, 3-bit samples, domain sync (one usb variant); " \
-         "BMC from reset K = 2*depth + pretrigger + 8 (two complete captures with read-back), everything free per cycle"
+         "BMC from reset K = 2*depth + pretrigger + 10 (two complete captures with read-back), everything free per cycle"
 OUTSIDE = "sample_depth 1 (zero-width write position); depths above 8; the serial/stream read-out front-ends " \
           "(SyncSerialILA, StreamILA, AsyncSerialILA) which only wrap this core"
 
@@ -137,12 +137,11 @@ def queries(tier):
     for depth, pre, dom in cfgs:
         tag = f"d{depth}p{pre}" + ("" if dom == "sync" else dom)
         f = (lambda depth=depth, pre=pre, dom=dom: ILAHarness(depth, pre, dom))
-        K = 2 * depth + pre + (8 if quick else 12)
-        qs.append(Query(f"bmc_{tag}", f, K, covers=[], split=False, timeout=600,
+        K = 2 * depth + pre + (10 if quick else 14)
+        qs.append(Query(f"bmc_{tag}", f, K, split=False, timeout=600,
                         desc=f"sample_depth {depth}, samples_pretrigger {pre}, domain {dom}: inputs, trigger and read address "
-                             "free every cycle; sampling/complete/read-back against the ghost recorder"))
-        qs.append(Query(f"cover_{tag}", f, 2 * depth + pre + 10, asserts=[], timeout=600,
-                        desc="reachability twins: complete, read-back of every position, ignored trigger, second capture"))
+                             "free every cycle; sampling/complete/read-back against the ghost recorder; reachability twins: "
+                             "complete, read-back of first/last position, ignored trigger, second capture"))
     for depth, pre, dom in ((2, 1, "sync"), (4, 2, "sync"), (3, 3, "usb")):
         f = (lambda depth=depth, pre=pre, dom=dom: ILAHarness(depth, pre, dom))
         qs.append(Query(f"cosim_d{depth}p{pre}{'' if dom == 'sync' else dom}", f, 0, kind="cosim",
